@@ -276,11 +276,11 @@ func c12GenSections(r *verifh.Rng, nsec int, mode string, tks []string, g c12Gen
 }
 
 func c12GenWB(r *verifh.Rng) []verifh.Section {
-	return c12GenSections(r, verifh.Scale(90, 1500), "wb", nil, c12GenCfg{})
+	return c12GenSections(r, verifh.Scale(90, 3000), "wb", nil, c12GenCfg{})
 }
 
 func c12GenAPI(r *verifh.Rng) []verifh.Section {
-	secs := c12GenSections(r, verifh.Scale(90, 1200), "api", []string{"sync", "fake", "sync"}, c12GenCfg{api: true})
+	secs := c12GenSections(r, verifh.Scale(90, 2400), "api", []string{"sync", "fake", "sync"}, c12GenCfg{api: true})
 	// NewTimingWheel's argument check
 	var ops []string
 	for i := 0; i < 24; i++ {
